@@ -1,5 +1,5 @@
 (** Case runners for the ChaCha properties C01, C02, C11, C14, C15. *)
-From Coq Require Import NArith ZArith List Bool.
+From Coq Require Import NArith ZArith List Bool Uint63.
 From CC Require Import Lib.Words Lib.Bytes Lib.ListX Spec.Lanes Run.Runner.
 From CC Require Import Model.ChaChaGuts Model.ChaChaStream.
 From CC Require Spec.ChaCha.
@@ -10,6 +10,27 @@ Definition variant_of (v : N) : variant := if v =? 0 then VDjb else if v =? 1 th
 Definition layout_of (v : N) : Spec.ChaCha.layout :=
   if v =? 0 then Spec.ChaCha.Djb else if v =? 1 then Spec.ChaCha.Ietf else Spec.ChaCha.XDjb.
 Definition res_code (r : result) : N := match r with ROk => 0 | RErr => 1 | RPanic => 2 end.
+
+(** Byte strings in the generated case files: coqc needs ~80 us per byte of a hexadecimal [N]
+    literal (number notation), 1.3 s for 16 KiB, but reads primitive integer literals natively. The
+    harness therefore writes a string as [W [w0; w1; ...]%uint63], seven bytes per word, little-endian:
+    the number whose little-endian encoding is the string, as for a literal. *)
+Fixpoint W (ws : list int) : N :=
+  match ws with
+  | [] => 0
+  | w :: r => Z.to_N (Uint63.to_Z w) + N.shiftl (W r) 56
+  end.
+
+(** Data of the large cases (2 KiB and more in one call) is written by the harness as [Pat len seed]
+    instead of a literal (coqc needs ~80 us per literal byte): the high bytes of the 16-bit sequence
+    x, 5x+12345, ... (mod 2^16), as the number whose little-endian encoding they are. The harness
+    fills the implementation's input with the same bytes. *)
+Fixpoint lcg_bytes (n : nat) (x : N) : list N :=
+  match n with
+  | O => []
+  | S k => N.shiftr x 8 :: lcg_bytes k (N.land (x * 5 + 12345) 0xffff)
+  end.
+Definition Pat (n seed : N) : N := le_join (lcg_bytes (N.to_nat n) (N.land seed 0xffff)).
 
 (** * C01: seek to [pos], apply [data]; implementation result [res] (0 ok / 1 err / 2 panic) and output *)
 Record c01case := C01 { c1_v : N; c1_dr : N; c1_key : N; c1_nlen : N; c1_nonce : N;
@@ -38,9 +59,27 @@ Definition run_c01 (c : c01case) : bool :=
   let io := B (c1_len c) (c1_out c) in
   (mr =? c1_res c) && (sr =? c1_res c) && list_eqb mo io && list_eqb so io.
 
+(** index of the first byte at which two strings differ (the length of the shorter one if none) *)
+Fixpoint first_diff (i : N) (a b : list N) : N :=
+  match a, b with
+  | x :: a', y :: b' => if x =? y then first_diff (N.succ i) a' b' else i
+  | _, _ => i
+  end.
+(** 64 bytes of [o] from byte [i] on, as a number *)
+Definition window (o : list N) (i : N) : N := le_join (firstn 64 (skipn (N.to_nat i) o)).
+
+(** For the replay file. Calls of up to 512 bytes: model result code, model output, spec result code,
+    spec output (outputs as little-endian numbers). Longer calls (printing a number of several KiB takes
+    coqc minutes): result code, 10^6 + index of the first byte at which the implementation's output
+    differs from the model's (the length if none), 64 bytes of the model's output from there on; the
+    same three for the spec. *)
 Definition explain_c01 (c : c01case) : list N :=
   let '(mr, mo) := c01_model c in let '(sr, so) := c01_spec c in
-  [mr; le_join mo; sr; le_join so].
+  if c1_len c <=? 512 then [mr; le_join mo; sr; le_join so]
+  else
+    let io := B (c1_len c) (c1_out c) in
+    let im := first_diff 0 mo io in let is := first_diff 0 so io in
+    [mr; 1000000 + im; window mo im; sr; 1000000 + is; window so is].
 
 (** * C02 / C11: histories with a block oracle taken from the implementation *)
 Inductive hop :=
@@ -106,11 +145,34 @@ Definition obs_num (o : obs) : list N :=
   | ObsPos None => [300]
   | ObsPos (Some z) => [301; Z.to_N z]
   end.
-Definition explain_hist (c : histcase) : list N := flat_map obs_num (hist_model c).
+(** what the model computes for every operation (for replay files): seek -> 100 + result code;
+    apply -> 200 + result code, output as a number (calls longer than 512 bytes: 10^6 + index of the first
+    byte at which the implementation's output differs from the model's, then 64 bytes of the model's output
+    from there on); current_pos -> 300 (Err) or 301, value *)
+Definition obs_num_h (h : hop) (o : obs) : list N :=
+  match h, o with
+  | HApply len _ _ out, ObsApply r o' =>
+      if len <=? 512 then obs_num o
+      else let i := first_diff 0 o' (B len out) in [200 + res_code r; 1000000 + i; window o' i]
+  | _, _ => obs_num o
+  end.
+Fixpoint explain_ops (hs : list hop) (os : list obs) : list N :=
+  match hs, os with
+  | h :: hr, o :: or => obs_num_h h o ++ explain_ops hr or
+  | _, _ => flat_map obs_num os
+  end.
+Definition explain_hist (c : histcase) : list N := explain_ops (h_ops c) (hist_model c).
 
-(** * C14: block API. key, d words, drounds; implementation: 256 bytes + d words after, wide and narrow *)
+(** * C14: block API. key, d words (computed by the harness from the 64-bit counter and the 64-bit
+    stream id, NOT read back), drounds; implementation: 256 bytes + d words after, wide and narrow;
+    whether the implementation finds the two objects equal as whole states (key rows included) and
+    equal to a state created from scratch at counter + 4; then the continuation on the same two
+    objects, the paths mixed: wide object refill4; refill, narrow object refill; refill4 (320 bytes
+    each + d words after). The output buffers of the implementation start as a non-zero pattern. *)
 Record c14case := C14 { w_key : N; w_d : list N; w_dr : N;
-                        w_wide : N; w_wide_d : list N; w_narrow : N; w_narrow_d : list N }.
+                        w_wide : N; w_wide_d : list N; w_narrow : N; w_narrow_d : list N;
+                        w_eq_wn : bool; w_eq_fresh : bool;
+                        w_wide2 : N; w_wide2_d : list N; w_narrow2 : N; w_narrow2_d : list N }.
 
 Definition c14_state (c : c14case) : chacha :=
   let key := B 32 (w_key c) in CC (words_le 4 (firstn 16 key)) (words_le 4 (skipn 16 key)) (w_d c).
@@ -120,17 +182,41 @@ Definition four_refills (s : chacha) (dr : nat) : list N * chacha :=
   let '(o2, s3) := refill s2 dr in let '(o3, s4) := refill s3 dr in
   (o0 ++ o1 ++ o2 ++ o3, s4).
 
+Definition chacha_eqb (a b : chacha) : bool :=
+  list_eqb (cb a) (cb b) && list_eqb (cc a) (cc b) && list_eqb (cd a) (cd b).
+
+(** the state [ChaCha::new] + [set_stream_param] give for the same key and stream id at counter + 4 *)
+Definition c14_fresh4 (c : c14case) : chacha :=
+  let s := c14_state c in
+  CC (cb s) (cc s) (set_pos (cd s) (wrap 64 (pos64 s + 4))).
+
+(** wide object: refill4; refill.  narrow object: refill; refill4 *)
+Definition c14_cont_wide (s : chacha) (dr : nat) : list N * chacha :=
+  let '(o1, s1) := refill_wide s dr in let '(o2, s2) := refill s1 dr in (o1 ++ o2, s2).
+Definition c14_cont_narrow (s : chacha) (dr : nat) : list N * chacha :=
+  let '(o1, s1) := refill s dr in let '(o2, s2) := refill_wide s1 dr in (o1 ++ o2, s2).
+
 Definition run_c14 (c : c14case) : bool :=
   let s := c14_state c in let dr := N.to_nat (w_dr c) in
   let '(ow, sw) := refill_wide s dr in
   let '(on, sn) := four_refills s dr in
+  let '(ow2, sw2) := c14_cont_wide sw dr in
+  let '(on2, sn2) := c14_cont_narrow sn dr in
   list_eqb ow (B 256 (w_wide c)) && list_eqb (cd sw) (w_wide_d c) &&
-  list_eqb on (B 256 (w_narrow c)) && list_eqb (cd sn) (w_narrow_d c).
+  list_eqb on (B 256 (w_narrow c)) && list_eqb (cd sn) (w_narrow_d c) &&
+  Bool.eqb (chacha_eqb sw sn) (w_eq_wn c) &&
+  Bool.eqb (chacha_eqb sw (c14_fresh4 c) && chacha_eqb sn (c14_fresh4 c)) (w_eq_fresh c) &&
+  list_eqb ow2 (B 320 (w_wide2 c)) && list_eqb (cd sw2) (w_wide2_d c) &&
+  list_eqb on2 (B 320 (w_narrow2 c)) && list_eqb (cd sn2) (w_narrow2_d c).
 
 Definition explain_c14 (c : c14case) : list N :=
   let s := c14_state c in let dr := N.to_nat (w_dr c) in
   let '(ow, sw) := refill_wide s dr in let '(on, sn) := four_refills s dr in
-  [le_join ow; dkey (cd sw); le_join on; dkey (cd sn)].
+  let '(ow2, sw2) := c14_cont_wide sw dr in
+  let '(on2, sn2) := c14_cont_narrow sn dr in
+  [le_join ow; dkey (cd sw); le_join on; dkey (cd sn);
+   (if chacha_eqb sw sn then 1 else 0); (if chacha_eqb sw (c14_fresh4 c) then 1 else 0);
+   le_join ow2; dkey (cd sw2); le_join on2; dkey (cd sn2)].
 
 (** * C15: stream parameters and stream equality *)
 Inductive pop :=
@@ -139,7 +225,12 @@ Inductive pop :=
 | PRefill (dr : N) (out : N)
 | PEq (key2 : N) (d2 : list N) (eq32 eq64 : bool).
 
-Record c15case := C15 { p_key : N; p_d : list N; p_ops : list pop }.
+(** key, nonce (8 or 12 bytes), the d words the implementation reports right after
+    [ChaCha::new(key, nonce)] (compared with the model's, never used to build the state), operations *)
+Record c15case := C15 { p_key : N; p_nlen : N; p_nonce : N; p_d : list N; p_ops : list pop }.
+
+(** the initial state is the MODEL's [ChaCha::new]: [init_chacha key nonce] *)
+Definition c15_init (c : c15case) : chacha := init_chacha (B 32 (p_key c)) (B (p_nlen c) (p_nonce c)).
 
 Definition mk_state (key : N) (d : list N) : chacha :=
   let k := B 32 key in CC (words_le 4 (firstn 16 k)) (words_le 4 (skipn 16 k)) d.
@@ -159,10 +250,12 @@ Fixpoint run_pops (s : chacha) (ops : list pop) : bool :=
       Bool.eqb (stream32_eq s s2) e32 && Bool.eqb (stream64_eq s s2) e64 && run_pops s r
   end.
 
-Definition run_c15 (c : c15case) : bool := run_pops (mk_state (p_key c) (p_d c)) (p_ops c).
-Definition explain_c15 (c : c15case) : list N := [dkey (cd (mk_state (p_key c) (p_d c)))].
+Definition run_c15 (c : c15case) : bool :=
+  ((p_nlen c =? 8) || (p_nlen c =? 12)) && list_eqb (cd (c15_init c)) (p_d c) && run_pops (c15_init c) (p_ops c).
+Definition explain_c15 (c : c15case) : list N := [dkey (cd (c15_init c))].
 
 (** what the model computes for every operation of a C15 case (for replay files):
+    first the four d words of the model's [ChaCha::new(key, nonce)] as one number; then
     set -> 1000 + param (2000 if the model panics); get -> the value; refill -> the block as a
     little-endian number; compare -> 10*stream32_eq + stream64_eq *)
 Fixpoint explain_pops (s : chacha) (ops : list pop) : list N :=
@@ -181,4 +274,4 @@ Fixpoint explain_pops (s : chacha) (ops : list pop) : list N :=
       let s2 := mk_state k2 d2 in
       ((if stream32_eq s s2 then 10 else 0) + (if stream64_eq s s2 then 1 else 0)) :: explain_pops s r
   end.
-Definition explain_c15_ops (c : c15case) : list N := explain_pops (mk_state (p_key c) (p_d c)) (p_ops c).
+Definition explain_c15_ops (c : c15case) : list N := dkey (cd (c15_init c)) :: explain_pops (c15_init c) (p_ops c).
